@@ -58,3 +58,21 @@ func H_C20_table() {
 	}
 	vReach("c20-table-done")
 }
+
+// H_C20_ptr: the pointer/conflict-bit packing, for every 63-bit pointer value and both flag values:
+// decoding returns the pointer, the flag is readable in bit 63, and re-encoding with the other flag changes
+// nothing but that bit (one lemma, all values decided by the solver).
+func H_C20_ptr() {
+	v := uint64(vU32("hi", 0))<<32 | uint64(vU32("lo", 0))
+	vAssume(v>>63 == 0) // user-space pointers: bit 63 is free, which is what the packing relies on
+	p := unsafe.Pointer(uintptr(v))
+	for _, f := range [2]bool{false, true} {
+		e := encodePointer(p, f)
+		vAssert(decodePointer(e) == p, "decodePointer(encodePointer(p, f)) == p")
+		vAssert((e>>63 == 1) == f, "the conflict flag is bit 63 of the encoded word")
+		vAssert(uint64(uintptr(decodePointer(e))) == v, "no other bit is disturbed")
+		e2 := encodePointer(decodePointer(e), !f)
+		vAssert(e2^e == 1<<63, "re-encoding with the other flag flips exactly bit 63")
+	}
+	vReach("c20-ptr-done")
+}
